@@ -8,7 +8,7 @@ toggles and observations; compared with the writer model after every step.
 import importlib
 
 from ..core import Result, Trace
-from ..gen.values import gen_string, gen_int_any, gen_int_in_range
+from ..gen.values import gen_string, gen_int_any, gen_int_in_range, StringPool
 from ..models.writer_model import WriterModel, Rejected
 
 ID = "C09"
@@ -31,7 +31,7 @@ COMPONENTS = {
     "stub_or_harness": ["history generator", "WriterModel reference model"],
 }
 PROBES = [
-    "refusal_on_nonempty_buffer", "refusal_right_after_mode_toggle", "perfect_fit_padded",
+    "same_string_in_both_modes", "refusal_on_nonempty_buffer", "refusal_right_after_mode_toggle", "perfect_fit_padded",
     "y_diaeresis_sanitized", "y_diaeresis_unsanitized", "to_bytearray_is_copy", "refusal_far_beyond_limit",
     "refusal_string_one_too_long", "refusal_string_one_too_short",
 ]
@@ -49,6 +49,7 @@ def generate(streams, tier):
     p_obs = rng.choice([0.02, 0.1])
     p_invalid = rng.choice([0.1, 0.3, 0.5])
     ops = []
+    pool = StringPool(vr)
     for _ in range(n):
         r = rng.random()
         if r < p_toggle:
@@ -64,7 +65,7 @@ def generate(streams, tier):
             ops.append(["add_bytes", [vr.randrange(256) for _ in range(vr.randrange(0, 6))]])
         else:
             op = rng.choice(STR_OPS)
-            s = gen_string(vr)
+            s = pool.get(vr)
             if op in ("add_string", "add_encoded_string"):
                 ops.append([op, s])
             else:
@@ -85,6 +86,7 @@ def execute(plan, env):
     w = EoWriter()
     m = WriterModel()
     toggled_last = False
+    seen_modes = {}
 
     def fail(kind, op, detail, step):
         res.violation = {"kind": kind, "signature": f"C09|{kind}|{op}|sanitize={m.sanitize}",
@@ -124,6 +126,10 @@ def execute(plan, env):
         except Rejected:
             expect = None
         has_y = name in STR_OPS and "ÿ" in args[0]
+        if name in STR_OPS:
+            seen_modes.setdefault(args[0], set()).add(m.sanitize)
+            if len(seen_modes[args[0]]) == 2:
+                res.count("probe.same_string_in_both_modes")
         if name in STR_OPS:
             if has_y:
                 res.count("probe.y_diaeresis_sanitized" if m.sanitize else "probe.y_diaeresis_unsanitized")
